@@ -304,7 +304,7 @@ def merge_value(c, a, b, sa, sb, out):
         raise MergeFail('None vs tuple: kept on separate paths')
     t = unify_ty(ta, tb)
     if t is None or t == 'none':
-        raise MergeFail('cannot merge %r / %r' % (a, b))
+        raise MergeFail('cannot merge values of types %r / %r' % (ta, tb))     # (no %r of the values: printing large terms is slow)
     if isinstance(t, tuple) and t[0] == 'list':
         # a list object on one side, a symbolic list value on the other: the merged value is a fresh list object
         return out.new_symlist(z3.If(c, lift(a, sa, t), lift(b, sb, t)), t[1])
